@@ -60,3 +60,11 @@ Theorem C01_ignore_covers_render_failures_refuted_K5 :
   run0 mirror_quirks [] [t1; t2] = ([], Fail) /\
   run0 spec_quirks [] [t1; t2] = ([EvAny; EvOut "after"], Ok []).
 Proof. exact K5_refuted. Qed.
+
+(* where the code IS the property text: on tasks without loop, task vars, include and ignore_errors
+   (the only places K2-K5 can arise) the quirk switches are irrelevant - the mirror of the code and the
+   semantics of the property text are one function, for every program, store and included-file runner *)
+Theorem C01_code_equals_property_text_on_quirk_free_programs : forall root fs run_inc ts st,
+  forallb quirk_free ts = true ->
+  exec_list mirror_quirks root fs run_inc ts st = exec_list spec_quirks root fs run_inc ts st.
+Proof. exact mirror_is_spec_on_quirk_free_programs. Qed.
